@@ -168,6 +168,13 @@ def check_c11(tier, seed):
                     open(o, "wb").write(b[: int(len(b) * frac)])
                 gen(tg)
                 compare("truncated: previous output truncated to %d%%" % int(frac * 100), ["fresh run", "truncate *_band.go", "run again"])
+            # longer leftover: the previous output followed by functions of injectors that were since removed
+            clean(); gen(tg)
+            for o in outs(tg):
+                b = open(o, "rb").read()
+                open(o, "wb").write(b + b"".join(b"\nfunc RemovedInjector%d() int {\n\treturn %d\n}\n" % (i, i) for i in range(12)))
+            gen(tg)
+            compare("longer: previous output was longer than the new one (injectors removed since)", ["fresh run", "append functions to *_band.go", "run again"])
             # stale leftover: output of a different declaration set with other names and imports
             clean(); gen(tg)
             for o in outs(tg):
@@ -207,5 +214,5 @@ def check_c11(tier, seed):
         shutil.rmtree(ex_root, ignore_errors=True)
     R.samples = samples
     R.coverage.update({"evaluations": runs, "distinct_nontrivial": len(distinct), "traces_validated_against_impl": runs,
-                       "rule": "generator runs over a probe package (same-named imports, user types named Errgroup/Context, injector named like its own result variable, two files) and seeded packages, each target set: fresh runs under GOMAXPROCS in {1,2,16} (quick) / 1..16 (thorough), re-runs over the previous output, over truncated (30%, 70%) and stale output; every examples/* regenerated with and without the checked-in output present; distinct = distinct output files"})
+                       "rule": "generator runs over a probe package (same-named imports, user types named Errgroup/Context, injector named like its own result variable, two files) and seeded packages, each target set: fresh runs under GOMAXPROCS in {1,2,16} (quick) / 1..16 (thorough), re-runs over the previous output, over truncated (30%, 70%), longer and stale output; every examples/* regenerated with and without the checked-in output present; distinct = distinct output files"})
     return R.finish("cd lean && lake build KV.Props.C11 && lake env lean <audit of Props/C11 theorems>", TRUSTED)
